@@ -4,6 +4,7 @@ import (
 	"fmt"
 	"math"
 	"strconv"
+	"strings"
 )
 
 // ---- expression generators ----
@@ -255,8 +256,13 @@ func (g *ExprGen) Double() float64 {
 	r := g.R
 	switch r.Intn(6) {
 	case 0:
-		// random bit pattern
-		return math.Float64frombits(r.Next())
+		// random bit pattern; three quarters of them with a moderate exponent
+		f := math.Float64frombits(r.Next())
+		if r.Chance(3, 4) && !math.IsNaN(f) && !math.IsInf(f, 0) && f != 0 {
+			fr, _ := math.Frexp(f)
+			f = math.Ldexp(fr, r.Intn(140)-70)
+		}
+		return f
 	case 1:
 		// small integer-ish
 		return float64(r.Intn(41)-20) / float64(pick(r, []int{1, 1, 2, 4, 10}))
@@ -290,7 +296,7 @@ func (g *ExprGen) Str() string {
 
 var numberStrings = []string{"1", "12", " 12 ", "\t12\n", "-1", "- 1", "-", ".", ".5", "5.", "-.5", "1.5", "01", "00.10", "1e3", "1E3", "+1", "0x10", "1_0", "Infinity", "-Infinity",
 	"inf", "nan", "NaN", "１", " 12", "12 ", "1 2", "", " ", "abc", "1a", "--1", "-0", "0", "0.0", "-0.0", "123456789012345678901234567890", "0.1", "0.30000000000000004",
-	"9007199254740993", "179769313486231580793728971405303415079934132710037826936173778980444968292764750946649017977587207096330286416692887910946555547851940402630657488671505820681908902000708383676273854845817711531764475730270069855571366959622842914819860834936475292719074168444365510704342711559699508093042880177904174497791.9", "4.9e-324", "0.000000000000000000000000000000000000000000000001", "1.",
+	"10000000000000000000000000000000000000000000000000000000000000000000000000000000000000000000000000000000000000000000000000000000000000000000000000000000000000000000000000000000000000000000000000000000000000000000000000000000000000000000000000000000000000000000000000000000000000000000000000000000000000000000000000000000000000000000000000000000000000000000000000000000000000000000000000000000000000000", "9007199254740993", "179769313486231580793728971405303415079934132710037826936173778980444968292764750946649017977587207096330286416692887910946555547851940402630657488671505820681908902000708383676273854845817711531764475730270069855571366959622842914819860834936475292719074168444365510704342711559699508093042880177904174497791.9", "4.9e-324", "0.000000000000000000000000000000000000000000000001", "1.",
 	"1.5.2", "1..2", "٣", "1 ", "\r\n7\r\n", "-\t7", "0x1p4", "1d", "1f", "1e", "e1", ".e1", "0.", "-.", "+.5", "2147483648", "4294967296", "1000000000000000000000",
 	"0.5", "-0.5", "1.5", "-1.5", "2.5", "-2.5"}
 
@@ -305,7 +311,7 @@ func (g *ExprGen) NumLiteralText() string {
 	case 2:
 		return fmt.Sprintf(".%d", r.Intn(1000))
 	case 3:
-		return pick(r, []string{"0", "1", "2", "10", "0.5", "1.5", "2.5", "0.1", "0.2", "00012", "3.0", "9007199254740993", "0.49999999999999994", "1000000000000000000000", "123456789012345678901234567890.5", "4.35", "0.000001"})
+		return pick(r, []string{"0", "1", "2", "10", "0.5", "1.5", "2.5", "0.1", "0.2", "00012", "3.0", "9007199254740993", "0.49999999999999994", "1000000000000000000000", "123456789012345678901234567890.5", "4.35", "0.000001", "1" + strings.Repeat("0", 320), strings.Repeat("9", 400) + ".5", "0." + strings.Repeat("0", 400) + "1"})
 	}
 	return strconv.Itoa(r.Intn(12))
 }
